@@ -48,20 +48,31 @@ pub enum Op {
 
 const VALUE: usize = 42;
 
-fn child(order_shutdown_first: bool, sig: i32, status: i32, hist: &[Op], e: &mut Emit) {
+fn child(order_shutdown_first: bool, sig: i32, status: i32, hist: &[Op], moved: bool, e: &mut Emit) {
     PIPE_FD.store(e.fd(), Ordering::SeqCst);
     unsafe {
         libc::atexit(at_exit_hook);
     }
-    let flag = Arc::new(AtomicBool::new(false));
+    // `moved`: the application hands its only strong handle of the condition to the shutdown
+    // registration and keeps a weak one, through which it arms / disarms / reads later on
+    let strong = Arc::new(AtomicBool::new(false));
+    let weak = Arc::downgrade(&strong);
+    let mut strong = Some(strong);
     let uflag = Arc::new(AtomicUsize::new(0));
     if order_shutdown_first {
-        signal_hook::flag::register_conditional_shutdown(sig, status, flag.clone()).unwrap();
-        signal_hook::flag::register(sig, flag.clone()).unwrap();
+        let c = if moved { strong.take().unwrap() } else { strong.as_ref().unwrap().clone() };
+        signal_hook::flag::register_conditional_shutdown(sig, status, c).unwrap();
+        signal_hook::flag::register(sig, weak.upgrade().unwrap()).unwrap();
     } else {
-        signal_hook::flag::register(sig, flag.clone()).unwrap();
-        signal_hook::flag::register_conditional_shutdown(sig, status, flag.clone()).unwrap();
+        signal_hook::flag::register(sig, weak.upgrade().unwrap()).unwrap();
+        let c = if moved { strong.take().unwrap() } else { strong.as_ref().unwrap().clone() };
+        signal_hook::flag::register_conditional_shutdown(sig, status, c).unwrap();
     }
+    let flag = weak.upgrade().unwrap();
+    if moved {
+        drop(flag);
+    }
+    let flag = || weak.upgrade().unwrap();
     signal_hook::flag::register_usize(sig, uflag.clone(), VALUE).unwrap();
     unsafe { signal_hook_registry::register(sig, || raw_line(b"late-action-ran ")) }.unwrap();
     for (k, op) in hist.iter().enumerate() {
@@ -71,13 +82,13 @@ fn child(order_shutdown_first: bool, sig: i32, status: i32, hist: &[Op], e: &mut
                 unsafe {
                     libc::raise(sig);
                 }
-                e.line(&format!("after-deliver {} flag={} uflag={}", k, flag.load(Ordering::SeqCst) as u8, uflag.load(Ordering::SeqCst)));
+                e.line(&format!("after-deliver {} flag={} uflag={}", k, flag().load(Ordering::SeqCst) as u8, uflag.load(Ordering::SeqCst)));
             }
-            Op::True => flag.store(true, Ordering::SeqCst),
-            Op::False => flag.store(false, Ordering::SeqCst),
+            Op::True => flag().store(true, Ordering::SeqCst),
+            Op::False => flag().store(false, Ordering::SeqCst),
             Op::Other => {
                 uflag.store(7, Ordering::SeqCst);
-                flag.store(false, Ordering::SeqCst);
+                flag().store(false, Ordering::SeqCst);
             }
         }
         e.line(&format!("step-done {}", k));
@@ -129,7 +140,7 @@ pub fn run(tier: Tier) -> BResult {
         hists = next;
     }
     // cells: (order, sig, status, history)
-    let mut cells: Vec<(bool, i32, i32, Vec<Op>)> = Vec::new();
+    let mut cells: Vec<(bool, i32, i32, Vec<Op>, bool)> = Vec::new();
     let term = signal_hook::consts::TERM_SIGNALS;
     for &order in &[true, false] {
         for (si, &sig) in term.iter().enumerate() {
@@ -141,20 +152,23 @@ pub fn run(tier: Tier) -> BResult {
                 if si > 0 && h.len() < depth {
                     continue;
                 }
-                cells.push((order, sig, 17 + si as i32, h.clone()));
+                cells.push((order, sig, 17 + si as i32, h.clone(), false));
+                if si == 0 {
+                    cells.push((order, sig, 17, h.clone(), true));
+                }
             }
         }
     }
     let statuses: Vec<i32> = if tier == Tier::Quick { vec![0, 1, 42, 255] } else { (0..=255).collect() };
     for &st in &statuses {
-        cells.push((true, libc::SIGTERM, st, vec![Op::Deliver, Op::Deliver]));
-        cells.push((false, libc::SIGTERM, st, vec![Op::Deliver]));
-        cells.push((true, libc::SIGINT, st, vec![Op::Deliver, Op::False, Op::Deliver, Op::Deliver]));
+        cells.push((true, libc::SIGTERM, st, vec![Op::Deliver, Op::Deliver], false));
+        cells.push((false, libc::SIGTERM, st, vec![Op::Deliver], false));
+        cells.push((true, libc::SIGINT, st, vec![Op::Deliver, Op::False, Op::Deliver, Op::Deliver], st % 2 == 1));
     }
     let cells2 = cells.clone();
     let probes = run_cells(cells.len(), 16, Duration::from_secs(30), move |i, e| {
-        let (o, s, st, h) = &cells2[i];
-        child(*o, *s, *st, h, e);
+        let (o, s, st, h, mv) = &cells2[i];
+        child(*o, *s, *st, h, *mv, e);
     });
     let mut violations = Vec::new();
     let mut samples = Vec::new();
@@ -162,10 +176,10 @@ pub fn run(tier: Tier) -> BResult {
     let mut distinct = std::collections::HashSet::new();
     let mut transitions = 0u64;
     for (i, p) in probes.iter().enumerate() {
-        let (order, sig, status, h) = &cells[i];
+        let (order, sig, status, h, moved) = &cells[i];
         transitions += h.len() as u64;
         let fatal = model(*order, h);
-        let case = json!({"registration_order": if *order { "shutdown first, flag second" } else { "flag first, shutdown second" }, "signal": sig, "status": status, "history": h.iter().map(|o| format!("{:?}", o)).collect::<Vec<_>>(), "model_fatal_delivery": fatal});
+        let case = json!({"registration_order": if *order { "shutdown first, flag second" } else { "flag first, shutdown second" }, "signal": sig, "status": status, "condition_handle": if *moved { "sole strong handle moved into the registration, application keeps a weak one" } else { "shared clone" }, "history": h.iter().map(|o| format!("{:?}", o)).collect::<Vec<_>>(), "model_fatal_delivery": fatal});
         *classes.entry(format!("{}:{}", if *order { "shutdown-first" } else { "flag-first" }, match fatal { Some(_) => "dies", None => "survives" })).or_insert(0) += 1;
         distinct.insert((*order, fatal, p.fate.describe(), h.len()));
         if samples.len() < 4 && i % 211 == 0 {
@@ -200,7 +214,7 @@ pub fn run(tier: Tier) -> BResult {
             }
         }
         if let Some(m) = bad {
-            violations.push(BViolation { message: format!("C15: {} / signal {} / status {} / history {:?}: {}", if *order { "shutdown first" } else { "flag first" }, sig, status, h, m), case });
+            violations.push(BViolation { message: format!("C15: {} / signal {} / status {} / history {:?}{}: {}", if *order { "shutdown first" } else { "flag first" }, sig, status, h, if *moved { " / condition moved into the registration, armed through a weak handle" } else { "" }, m), case });
         }
     }
     BResult {
@@ -213,7 +227,7 @@ pub fn run(tier: Tier) -> BResult {
         violations,
         exhaustive: true,
         caps: vec![],
-        rule: format!("every history of length 1..{} over {{deliver, app stores true, app stores false, app stores another value}} containing a delivery x both registration orders x termination signals (full depth for all, all lengths for the first) + exit statuses {:?}.. on canonical histories; reference model = one boolean; distinct = distinct (order, fatal delivery index, child fate, length)", depth, &statuses[..statuses.len().min(4)]),
+        rule: format!("every history of length 1..{} over {{deliver, app stores true, app stores false, app stores another value}} containing a delivery x both registration orders x termination signals (full depth for all, all lengths for the first) x how the condition is shared (a clone; or, with the first signal, the only strong handle moved into the registration while the application arms through a weak one) + exit statuses {:?}.. on canonical histories; reference model = one boolean; distinct = distinct (order, fatal delivery index, child fate, length)", depth, &statuses[..statuses.len().min(4)]),
         assumptions: vec!["exit-time hooks observed through libc::atexit".into()],
     }
 }
